@@ -483,6 +483,34 @@ def describe_request(blk):
     return d
 
 
+def create_note(blk):
+    """the `N create-carries class=.. cookie=.. returned_is_carried=.. new_server_session=..` note of a POST /session that carried a cookie"""
+    for n in blk["n"]:
+        if n.startswith("create-carries"):
+            return dict(x.split("=", 1) for x in n.split() if "=" in x)
+    return {}
+
+
+def create_not_fresh(case, bi, grpc_text=""):
+    """POST /session must make a NEW session whatever cookie the request carries: a cookie no earlier create of this history returned,
+    and a new server session (TagConn). -> [(bi, rule, text)]"""
+    blk = case["blocks"][bi]
+    e = blk["e"]
+    if [o[1] for o in blk["o"] if o and o[0] == "st"] != ["201"]:
+        return []
+    earlier = {b["e"][1] for b in case["blocks"][:bi] if b["e"][0] == "create" and len(b["e"]) > 1}
+    x = create_note(blk)
+    why = []
+    if e[1] in earlier or x.get("returned_is_carried") == "1":
+        why.append("it returned the cookie %s, which an earlier POST /session of this history had returned" % show_str(e[1]))
+    if len(e) > 2 and e[2] == "-":
+        why.append("no new server session was created (no TagConn)")
+    if not why:
+        return []
+    return [(bi, "create-reused-session", "POST /session%s was answered 201 but did not create a session: %s%s"
+             % ((" carrying the cookie of class %s (%s)" % (x.get("class"), show_str(x.get("cookie", "-")))) if x else "", "; ".join(why), ("; " + grpc_text) if grpc_text else ""))]
+
+
 def c15_oracle(case):
     """The property on one real c15 case: list of (block index, rule, text). Empty = REST and gRPC agree."""
     fails = []
@@ -524,6 +552,7 @@ def c15_oracle(case):
             rg("sid", g[1])
             if st != ["201"]:
                 fails.append((bi, "create-status", "POST /session answered %s; the gRPC connection was opened" % st))
+            fails += create_not_fresh(case, bi, "a new gRPC connection gets a new server session (%s)" % show_str(g[1]))
         elif e[0] == "delete":
             if st != ["200"]:
                 fails.append((bi, "delete-status", "DELETE /session of a live session answered %s" % st))
@@ -646,6 +675,18 @@ def mixed_oracle(case):
     return fails, judged
 
 
+def create_classes(batches):
+    """how many POST /session exchanges carried a cookie, per class (from the notes of the real traces)"""
+    out = {"none": 0}
+    for bb in batches:
+        for case in bb["cases"].values():
+            for blk in case["blocks"]:
+                if blk["e"][0] == "create":
+                    c = create_note(blk).get("class")
+                    out[c or "none"] = out.get(c or "none", 0) + 1
+    return out
+
+
 def case_kinds(case):
     return tuple((b["e"][0] if b["e"][0] != "req" else b["e"][2]) for b in case["blocks"] if b["e"][0] != "probe")
 
@@ -683,10 +724,13 @@ LONG_NAMES = ([_rep(b"a", 1024)] + [_rep(b"n", k) for k in (4000, 4030, 4050, 40
                  _rep(b"ab", 8192), _rep(b"b", 100 * 1024), _rep(b"c", 1 << 20), _rep(b"long-", 200000, b"tail")])
 LONG_KEYS = [_rep(b"k", 4100), _rep(b"k", 5000), _rep(b"0123456789abcdef", 4096)]
 PROFILE_C15.update({"long_pct": 12, "long_names": LONG_NAMES, "long_keys": LONG_KEYS})
+# a share of the POST /session exchanges carry a cookie (a cookie-jar client posts with whatever it has): of another live session, of
+# an ended one, garbage, the session's own; the answer must be a fresh, independent session (gRPC: every connect is a new connection)
+PROFILE_C15["create_ck_pct"] = 30
 
 
 PROFILE_MIXED = dict(PROFILE_C15, mode="mixed", weights={"create": 8, "delete": 5, "try": 26, "unl": 24, "ren": 18, "noop": 2, "adv": 17},
-                     sizes=[2, 3, 3], lts=[None, 2, 3, 5, 5, 30, 0, -1], renew_lts=[1, 2, 3, 3, 0, -1], names=["61", "62"], bad_key_pct=5, tmos=[2000000007, 5 * S, 600 * S], long_pct=0)
+                     sizes=[2, 3, 3], lts=[None, 2, 3, 5, 5, 30, 0, -1], renew_lts=[1, 2, 3, 3, 0, -1], names=["61", "62"], bad_key_pct=5, tmos=[2000000007, 5 * S, 600 * S], long_pct=0, create_ck_pct=0)
 
 
 def shrink_history(ctx, b, h, fails_fn, budget=30):
@@ -777,6 +821,9 @@ def run(ctx):
     ctx.assumptions += ASSUMPTIONS_COMMON + [
         "C15_equiv is stated with the drawn values supplied equal on both sides; on real traces the comparison is up to renaming of keys and session ids by first occurrence (the model is not claimed to be equivariant under renaming: gmap iteration order depends on the strings)",
         "lastAccessed of lock objects is part of the compared server state (both servers see the same requests at the same virtual instants)",
+        "Mrest's create (RCreate cookie sid) has no request cookie: a POST /session always makes a fresh session. A create that carries a cookie is therefore replayed on the model as a plain create "
+        "(the trace line is the same; the carried cookie and its class are a note); on the gRPC side every create is a new connection. A client that re-posts with its own live cookie goes on "
+        "with the session it is given and closes the old one with the old cookie (gRPC: opens a new connection, closes the old one)",
     ]
     coq_ok = ctx.coq_stage()
     b = build(ctx)
@@ -898,6 +945,7 @@ def run(ctx):
     lg["pool"] = "%d long names (1 KB; 4000..4200 bytes around 4096 incl. two-byte and JSON-escaped characters; 5000; 8 KB multi-byte; 16 KB; 100 KB; 1 MiB), %d long keys; %d %% of the histories draw from them" % (
         len(LONG_NAMES), len(LONG_KEYS), PROFILE_C15["long_pct"])
     tie["long_names_and_keys"] = lg
+    tie["session_creates_carrying_a_cookie"] = create_classes(batches)
     report_crashes(ctx, crashes, "the gateway crashed or hung")
     if n_mis and not n_fail and not crashes:
         hid, mm, r, bb = first_mis
